@@ -14,6 +14,14 @@ One stream, two kinds of cases:
     (the statement of `ccode_value_c_partial`, run on every generated case); the oracle compares
     gcc's value with `EvaluationMapper`.
 
+A third stream, "ccode-prog" (`ProgStream`), is the tie of the PROGRAM-level model
+(lean/PV/Model/CCodeProg.lean, theorems `program_value_partial` / `history_value_partial`): histories
+of calls on one mapper over trees of `PV.C14.cFragCse` (the fragment with `CommonSubexpression`
+wrappers anywhere); per call the expression text and the assignments the call hoists, per
+environment the model's `runProg` of the whole program vs gcc and the reference meaning `denVCse` vs
+the real evaluator; oracle: the whole program (`long long name = …;` in `cse_name_list` order, then
+every expression of the history) compiled by gcc and run gives the evaluator's values.
+
 All C programs of a run are batched into ONE translation unit (one function per program); a second
 compiler run happens only when some functions do not compile, a third/fourth one for the
 classification of failures (smallest failing subterm).
@@ -1371,6 +1379,446 @@ class TableStream(Stream):
         acc[pl["src"]] = acc.get(pl["src"], 0) + 1
 
 
+
+# {{{ program level: assignments + expression
+
+class ProgGen:
+    """trees of `PV.C14.cFragCse` by construction: the C-expressible integer fragment with
+    `CommonSubexpression` wrappers at any place — shared wrappers, wrappers whose child contains
+    wrappers, equal children under different prefixes, wrappers of Boolean-valued and of
+    remainder-valued subexpressions (which may stand where the bare subexpression may not)"""
+
+    def __init__(self, rng, cse=0.3):
+        self.rng, self.cse, self.pool = rng, cse, []
+
+    def leaf(self):
+        r = self.rng
+        return p.Variable(r.choice(IVARS)) if r.random() < 0.65 else r.randint(0, 9)
+
+    def prod(self, fs):
+        """a bare remainder is not a factor of the fragment (`a * b % c`); a wrapped one is"""
+        r = self.rng
+        return p.Product(tuple(CSE(f, r.choice(PREFIXES)) if isinstance(f, p.Remainder) else f
+                               for f in fs))
+
+    def wrap(self, d):
+        r = self.rng
+        if self.pool and r.random() < 0.55:
+            child = r.choice(self.pool)
+        else:
+            k = r.random()
+            child = self.cond(d - 1) if k < 0.15 else \
+                p.Remainder(self.nn(d - 1), r.randint(2, 7)) if k < 0.3 else self.num(d - 1)
+            self.pool.append(child)
+        return CSE(child, r.choice(PREFIXES))
+
+    def cond(self, d):
+        r = self.rng
+        k = r.random()
+        if d <= 0 or k < 0.55:
+            return p.Comparison(self.num(d - 1, bit=False), r.choice(CMPS), self.num(d - 1, bit=False))
+        if k < 0.7:
+            return p.LogicalNot(self.any(d - 1))
+        cls = p.LogicalAnd if k < 0.85 else p.LogicalOr
+        return cls(tuple(self.any(d - 1) for _ in range(r.randint(2, 3))))
+
+    def any(self, d):
+        return self.cond(d) if self.rng.random() < 0.6 else self.num(d)
+
+    def nn(self, d):
+        """non-negative on non-negative variables (operands of `&`, `^`, `|`, `~`, shifts, `//`, `%`)"""
+        r = self.rng
+        if d <= 0 or r.random() < 0.25:
+            return self.leaf()
+        if r.random() < self.cse:
+            w = self.wrap_nn(d)
+            if w is not None:
+                return w
+        k = r.randrange(8)
+        g = lambda: self.nn(d - 1)  # noqa: E731
+        if k == 0:
+            return p.Sum((g(), g()))
+        if k == 1:
+            return self.prod((g(), g()))
+        if k == 2:
+            return p.Remainder(g(), r.randint(2, 9))
+        if k == 3:
+            return p.FloorDiv(g(), r.choice([1, 2, 3, p.Sum((g(), 1))]))
+        if k == 4:
+            cls = r.choice([p.BitwiseAnd, p.BitwiseOr, p.BitwiseXor])
+            return cls(tuple(g() for _ in range(r.randint(2, 3))))
+        if k == 5:
+            return r.choice([p.LeftShift, p.RightShift])(g(), r.choice([0, 1, 2, p.Remainder(g(), 3)]))
+        if k == 6:
+            return p.Power(p.Variable(r.choice(IVARS)), 2)
+        return r.choice([p.Min, p.Max])((g(), g()))
+
+    def wrap_nn(self, d):
+        r = self.rng
+        nnpool = getattr(self, "nnpool", None)
+        if nnpool is None:
+            nnpool = self.nnpool = []
+        if nnpool and r.random() < 0.55:
+            child = r.choice(nnpool)
+        else:
+            child = self.nn(d - 1)
+            nnpool.append(child)
+            self.pool.append(child)
+        return CSE(child, r.choice(PREFIXES))
+
+    def num(self, d, bit=True):
+        """`bit = False`: not a bitwise operation at the root (operand of a comparison)"""
+        r = self.rng
+        if d <= 0 or r.random() < 0.12:
+            return self.leaf()
+        if r.random() < self.cse:
+            return self.wrap(d)
+        k = r.random()
+        g = lambda: self.num(d - 1)  # noqa: E731
+        if k < 0.2:
+            cs = [g()] + [r.choice([g, lambda: self.prod((-1, g())), lambda: self.prod((-1, g(), g()))])()
+                          for _ in range(r.randint(1, 2))]
+            first = cs[0]
+            if isinstance(first, p.Product) and first.children and first.children[0] == -1:
+                cs[0] = self.leaf()
+            return p.Sum(tuple(cs))
+        if k < 0.38:
+            return self.prod([g() for _ in range(r.randint(2, 3))])
+        if k < 0.48:
+            return p.FloorDiv(self.nn(d - 1), r.choice([2, 3, p.Sum((self.nn(d - 1), 1))]))
+        if k < 0.58:
+            return p.Remainder(self.nn(d - 1), r.choice([2, 5, p.Sum((self.nn(d - 1), 1))]))
+        if k < 0.63:
+            return p.Power(p.Variable(r.choice(IVARS)), 2)
+        if k < 0.73:
+            return p.If(self.any(d - 1), g(), g())
+        if k < 0.8 and bit:
+            cls = r.choice([p.BitwiseAnd, p.BitwiseOr, p.BitwiseXor])
+            return cls(tuple(self.nn(d - 1) for _ in range(r.randint(2, 3))))
+        if k < 0.85:
+            return r.choice([p.LeftShift, p.RightShift])(self.nn(d - 1), r.randint(0, 3))
+        if k < 0.88:
+            return p.BitwiseNot(self.nn(d - 1))
+        if k < 0.93:
+            return r.choice([p.Min, p.Max])((g(), g()))
+        return self.cond(d - 1)
+
+    def env(self):
+        return {v: self.rng.randint(0, 9) for v in IVARS}
+
+
+def prog_shapes():
+    """every binary / unary node kind of the fragment, to be filled with wrappers"""
+    x = p.Variable("x")
+    ops = [("sum", lambda u, v: p.Sum((u, v))), ("sub", sub),
+           ("sum3", lambda u, v: p.Sum((x, p.Product((-1, u, v)), 4))),
+           ("prod", lambda u, v: p.Product((u, v))), ("prod3", lambda u, v: p.Product((u, 3, v))),
+           ("floordiv", p.FloorDiv), ("rem", p.Remainder),
+           ("shl", lambda u, v: p.LeftShift(u, p.Remainder(v, 3))),
+           ("shr", lambda u, v: p.RightShift(u, p.Remainder(v, 3))),
+           ("band", lambda u, v: p.BitwiseAnd((u, v))), ("bor", lambda u, v: p.BitwiseOr((u, v, x))),
+           ("bxor", lambda u, v: p.BitwiseXor((u, v))),
+           ("lt", lambda u, v: p.Comparison(u, "<", v)), ("eq", lambda u, v: p.Comparison(u, "==", v)),
+           ("and", lambda u, v: p.LogicalAnd((u, v))), ("or", lambda u, v: p.LogicalOr((x, u, v))),
+           ("min", lambda u, v: p.Min((u, v))), ("max", lambda u, v: p.Max((u, v))),
+           ("if", lambda u, v: p.If(u, v, x)), ("if2", lambda u, v: p.If(x, u, v)),
+           ("not", lambda u, v: p.Sum((p.LogicalNot(u), v))),
+           ("bnot", lambda u, v: p.Product((p.BitwiseNot(u), v)))]
+    return ops
+
+
+def prog_wrappers():
+    x, y, z, a = [p.Variable(v) for v in "xyza"]
+    w1 = CSE(p.Sum((x, 1)), "u")
+    w2 = CSE(p.Product((w1, y)))                       # nested
+    w3 = CSE(p.Sum((x, 1)), "v")                       # equal child, other prefix
+    w4 = CSE(p.Remainder(a, 3))                        # remainder-valued
+    w5 = CSE(p.Comparison(y, "<", z), "u")             # Boolean-valued, repeated prefix
+    w6 = CSE(CSE(p.BitwiseAnd((a, w4)), "u"), "u_2")   # wrapper of a wrapper
+    return [w1, w2, w3, w4, w5, w6]
+
+
+class ProgStream(Stream):
+    """The C PROGRAM of a history of calls on one mapper: the assignments hoisted so far
+    (`cse_name_list`, in order) followed by an expression text.
+
+      * correspondence: per call, the expression text and the `(name, text)` assignments the call
+        appends (model `PV.C14.emitProg` vs the real `CCodeMapper`); per environment and call, the
+        reference meaning `denVCse` (a wrapper means its child) vs the real evaluator, typed; the
+        model's `runProg` (declarations in order, then the expression, all read by C's grammar
+        `denC`) vs gcc on the WHOLE program; inside the proved statement (`cFragCse`, `cseTotal`,
+        disjoint names, meaning defined) the instance of `history_value_partial`:
+        `runProg = toInt(denVCse)` for EVERY expression of the history under the final list;
+      * oracle (real code only): names unique, assigned once, assigned before use, and the whole
+        program compiled by gcc (`long long name = …;` in order) and run gives the evaluator's value
+        of every expression of the history, on a few environments."""
+    name = "ccode-prog"
+
+    # {{{ cases
+
+    def _payload(self, rng, es, gen, src, reverse=None, pfx=None):
+        envs = []
+        for _attempt in range(10):
+            env = gen.env()
+            if all(in_range(e, env, "int") is not None for e in es):
+                envs.append(env)
+                if len(envs) == 2:
+                    break
+        if not envs:
+            envs = [gen.env()]
+        return {"reverse": (rng.random() < 0.8) if reverse is None else reverse,
+                "pfx": pfx or rng.choice(["_cse", "_cse", "_cse", "_t"]), "envs": envs,
+                "exprs": [dumps(expr_to_sx(e)) for e in es], "src": src}
+
+    def cases(self, rng, tier):
+        big = tier != "quick"
+        pls = []
+        ws = prog_wrappers()
+        x = p.Variable("x")
+        g0 = ProgGen(rng)
+        # every node kind with wrappers in both operand positions; a second call reuses them
+        for name, o in prog_shapes():
+            pairs = [(w, x) for w in ws] + [(x, w) for w in ws] + [(w, w) for w in ws[:3]]
+            if big:
+                pairs += [(u, v) for u in ws for v in ws if u is not v]
+            else:
+                pairs += [(rng.choice(ws), rng.choice(ws)) for _ in range(4)]
+            for u, v in pairs:
+                es = [o(u, v)]
+                if rng.random() < 0.5:
+                    _n2, o2 = rng.choice(prog_shapes())
+                    es.append(o2(v, CSE(u.child if isinstance(u, CSE) else u, rng.choice(PREFIXES))))
+                pls.append(self._payload(rng, es, g0, "shape:" + name, reverse=rng.random() < 0.7,
+                                         pfx="_cse"))
+        # random histories: 1 … 4 calls sharing one pool of wrapper children
+        for _ in range(260 if not big else 5000):
+            gen = ProgGen(rng, cse=rng.choice([0.2, 0.35, 0.5]))
+            es = [gen.num(rng.randint(1, 4)) for _ in range(rng.randint(1, 4))]
+            if len(es) > 1 and rng.random() < 0.3:
+                es.append(CSE(rng.choice(es[:-1]), rng.choice(PREFIXES)))    # an earlier tree, wrapped
+            pls.append(self._payload(rng, es, gen, "random"))
+        # shapes beyond the proved fragment (text, runProg vs gcc, the oracle)
+        for _ in range(60 if not big else 1200):
+            gen = IntGen(rng, cse=rng.choice([0.3, 0.5]), bitwise=0.03, bigpow=0.0, minmax=0.04, rich=0.3)
+            es = [gen.num(rng.randint(1, 3)) for _ in range(rng.randint(1, 3))]
+            pls.append(self._payload(rng, es, gen, "random-wide"))
+        self.prepare(pls, chunk=3000 if not big else 1500)
+        yield from pls
+
+    def prepare(self, pls, chunk):
+        units = []
+        for pl in pls:
+            try:
+                _m, _emits, us = self.real(pl)
+                units += us
+            except Exception:
+                pass
+        for lo in range(0, len(units), chunk):
+            compile_units(units[lo:lo + chunk])
+        # second phase: what `classify` needs for the failing programs
+        more = []
+        for pl in pls:
+            try:
+                more += self.failure(pl, want_units=True) or []
+            except Exception:
+                pass
+        compile_units(more)
+
+    # }}}
+
+    @staticmethod
+    def real(pl):
+        """the real mapper on the history: (mapper, [(expr, text, new assignments)], one program
+        per environment: all assignments in order, every expression text)"""
+        from pymbolic.mapper.c_code import CCodeMapper
+        m = CCodeMapper(reverse=pl["reverse"], cse_prefix=pl["pfx"])
+        emits = []
+        for s in pl["exprs"]:
+            e = sx_to_expr(loads(s))
+            before = len(m.cse_name_list)
+            text = m(e)
+            emits.append((e, text, list(m.cse_name_list[before:]), list(m.cse_name_list)))
+        units = [make_unit("int", sorted(env.items()), m.cse_name_list, [t for _e, t, _n, _a in emits])
+                 for env in pl["envs"]]
+        return m, emits, units
+
+    def request(self, pl):
+        envs = " ".join("(" + " ".join(f"({k} {int(v)})" for k, v in sorted(env.items())) + ")"
+                        for env in pl["envs"])
+        return (f"(ccode-prog {'true' if pl['reverse'] else 'false'} {q(pl['pfx'])} ({envs}) "
+                f"({' '.join(pl['exprs'])}))")
+
+    def run_impl(self, pl):
+        try:
+            m, emits, units = self.real(pl)
+        except RecursionError:
+            raise
+        except Exception as ex:
+            return f"(err {type(ex).__name__})"
+        em = [[t, [[n, v] for n, v in new]] for _e, t, new, _a in emits]
+        names = {n for n, _v in m.cse_name_list}
+        envs = []
+        for env, r in zip(pl["envs"], compile_units(units)):
+            inr = all(in_range(e, env, "int") is not None for e, _t, _n, _a in emits)
+            vals = []
+            for i, (e, _t, _n, _a) in enumerate(emits):
+                if r[0] == "ok":
+                    typ, txt = r[1][i]
+                    cv = [A("int"), A(txt)] if typ == "i" else [A("double"), A(txt)]
+                else:
+                    cv = [A(r[0])]
+                vals.append([cv, loads(py_value_sx(e, env))])
+            envs.append([[A("disj"), A("true" if not (names & set(env)) else "false")],
+                         [A("inrange"), A("true" if inr else "false")], vals])
+        return dumps([A("prog"), em, envs])
+
+    def agree(self, model, impl, pl):
+        if "(noclaim)" in model:
+            return "trivial"
+        try:
+            ms, ims = loads(model), loads(impl)
+        except Exception:
+            return "diff"
+        if not (isinstance(ms, list) and isinstance(ims, list) and ms and ims
+                and ms[0] == "prog" and ims[0] == "prog"):
+            return "diff"
+        # the program text, call by call
+        if dumps(ms[1]) != dumps(ims[1]):
+            return "diff"
+        frags = ms[2]
+        for menv, ienv in zip(ms[3], ims[2]):
+            disj = menv[0][1] == "true"
+            if disj != (ienv[0][1] == "true"):
+                return "diff"
+            inr = ienv[1][1] == "true"
+            # the hypotheses of `history_value_partial` speak about ALL trees of the history (every
+            # hoisted assignment is executed before any expression)
+            hyp = disj and all(fr == "true" for fr in frags) and all(mv[2][1] == "true" for mv in menv[1])
+            for mv, iv in zip(menv[1], ienv[2]):
+                m_run, m_ref = mv[0], mv[1]
+                c_val, py_val = iv
+                if hyp and m_ref[0] != "none":
+                    # the instance of `history_value_partial`
+                    if dumps(m_ref) != dumps(py_val):
+                        return "diff"
+                    want = int(m_ref[1]) if m_ref[0] == "int" else (1 if m_ref[1] == "true" else 0)
+                    if m_run[0] != "int" or int(m_run[1]) != want:
+                        return "diff"
+                if m_run[0] == "int" and inr and disj:
+                    # C's reading of the whole program in the model and in gcc
+                    if c_val[0] != "int" or int(c_val[1]) != int(m_run[1]):
+                        return "diff"
+        return "ok"
+
+    # {{{ the property's own statement on the real code
+
+    def failure(self, pl, want_units=False):
+        try:
+            m, emits, units = self.real(pl)
+        except RecursionError:
+            raise
+        except AssertionError as ex:
+            # the mapper's own check `len(cse_names) == len(cse_to_name)`: a name handed out twice
+            # or a wrapped subexpression entered twice
+            return [] if want_units else Failure("ccode-allocator-assertion",
+                                                 f"CCodeMapper raises AssertionError {ex}")
+        except Exception:
+            return [] if want_units else None       # outside the C mapper's domain
+        if not want_units:
+            trace = [("emit", 0, e, t, None, after) for e, t, _n, after in emits]
+            f = structural_failure({"pfx": pl["pfx"]}, [m], trace)
+            if f is not None:
+                return f
+        names = {n for n, _v in m.cse_name_list}
+        more = []
+        for env, u, r in zip(pl["envs"], units, compile_units(units)):
+            if names & set(env):
+                continue          # the environment declares a generated name: nothing is promised
+            scales = [in_range(e, env, "int") for e, _t, _n, _a in emits]
+            if any(sc is None for sc in scales):
+                continue          # out of range (this includes every hoisted subexpression)
+            if r[0] == "harness":
+                if want_units:
+                    continue
+                return Failure("harness-c-compiler", r[1])
+            if r[0] == "ok":
+                bad = [i for i, ((e, _t, _n, _a), sc) in enumerate(zip(emits, scales))
+                       if not value_matches("int", py_eval(e, env), r[1][i], sc)]
+            else:
+                bad = list(range(len(emits)))
+            if want_units:
+                for i in bad:
+                    more += classification_units("int", env, emits[i][0])
+                continue
+            for i in bad:
+                key, detail, _m = classify("int", env, emits[i][0])
+                if key != "c-value-mismatch:history":
+                    return Failure(key, detail)
+            if bad:
+                i = bad[0]
+                e, text = emits[i][0], emits[i][1]
+                known = {n for n, _v in emits[i - 1][3]} if i else set()
+                reuse = "reused-name" if set(IDENT.findall(text)) & known else "own-names"
+                if r[0] == "ok":
+                    pos = "last-call" if i == len(emits) - 1 else "earlier-call"
+                    return Failure(f"prog-value-mismatch:{pos}:{reuse}",
+                                   f"call {i} of {len(emits)}: every expression is fine through a "
+                                   f"fresh mapper; the program {u['assigns']} ; {text!r} gives "
+                                   f"{r[1][i][1]}, the evaluator {py_eval(e, env)!r} on {env}")
+                why = r[1] if len(r) > 1 else ""
+                kind_ = "redeclared-name" if "redefinition" in why or "redeclar" in why else \
+                    "undeclared-name" if "undeclared" in why else r[0]
+                return Failure(f"prog-fails:{kind_}",
+                               f"every expression is fine through a fresh mapper; the program "
+                               f"{u['assigns']} ; {u['texts']} on {env}: {r}")
+        return more if want_units else None
+
+    def oracle(self, pl):
+        return self.failure(pl)
+
+    # }}}
+
+    def shrink(self, pl):
+        es = pl["exprs"]
+        if len(pl["envs"]) > 1:
+            for i in range(len(pl["envs"])):
+                yield {**pl, "envs": pl["envs"][:i] + pl["envs"][i + 1:]}
+        if len(es) > 1:
+            for i in reversed(range(len(es))):
+                yield {**pl, "exprs": es[:i] + es[i + 1:]}
+        for i, s in enumerate(es):
+            for t in sx_shrinks(loads(s)):
+                yield {**pl, "exprs": es[:i] + [dumps(t)] + es[i + 1:]}
+
+    def nontrivial_key(self, pl, model, impl):
+        return json.dumps(pl, sort_keys=True, default=str)
+
+    def stats(self, pl, mo, io, acc):
+        acc["histories"] = acc.get("histories", 0) + 1
+        acc["calls"] = acc.get("calls", 0) + len(pl["exprs"])
+        src = pl["src"].split(":")[0]
+        acc["src:" + src] = acc.get("src:" + src, 0) + 1
+        try:
+            ms, ims = loads(mo), loads(io)
+            if ms[0] != "prog" or ims[0] != "prog":
+                return
+            acc["assignments"] = acc.get("assignments", 0) + sum(len(c[1]) for c in ims[1])
+            for menv, ienv in zip(ms[3], ims[2]):
+                disj, inr = menv[0][1] == "true", ienv[1][1] == "true"
+                hyp = disj and all(fr == "true" for fr in ms[2]) and all(mv[2][1] == "true" for mv in menv[1])
+                for mv, iv in zip(menv[1], ienv[2]):
+                    if hyp and mv[1][0] != "none":
+                        acc["values_in_proved_statement"] = acc.get("values_in_proved_statement", 0) + 1
+                    if mv[0][0] == "int" and inr and disj:
+                        acc["runProg_vs_gcc"] = acc.get("runProg_vs_gcc", 0) + 1
+        except Exception:
+            pass
+        acc["compiler_runs"] = RUNS["compiler"]
+        acc["c_programs"] = RUNS["units"]
+
+# }}}
+
+
 def probe():
     """replay the minimal input of every known finding on the real code"""
     st = CStream()
@@ -1394,13 +1842,43 @@ def probe():
     return out
 
 
+def probe_program():
+    """program-level findings of the proof (PV.C14.program_value_lazy_cex / _env_clash_cex), replayed
+    on the real mapper + gcc + evaluator"""
+    from pymbolic.mapper.c_code import CCodeMapper
+    from pymbolic.mapper.evaluator import EvaluationMapper
+    x, y = p.Variable("x"), p.Variable("y")
+    cases = [
+        ("prog-hoisted-out-of-lazy-context",
+         p.If(p.Comparison(y, "!=", 0), p.CommonSubexpression(p.FloorDiv(x, y)), 0), {"x": 7, "y": 0}),
+        ("prog-generated-name-clashes-with-variable",
+         p.Product((p.CommonSubexpression(p.Sum((x, 1))), p.Variable("_cse0"))), {"x": 1, "_cse0": 5}),
+    ]
+    out = []
+    for key, e, env in cases:
+        try:
+            m = CCodeMapper()
+            text = m(e)
+            want = EvaluationMapper(env)(e)
+            r = compile_units([make_unit("int", sorted(env.items()), m.cse_name_list, [text])])[0]
+        except Exception as ex:  # the mapper refusing the input would be a repair
+            out.append((key, False, f"no longer reproducible: {ex!r}"))
+            continue
+        if r[0] == "harness":
+            continue                      # no compiler: nothing can be said
+        ok = r[0] == "ok" and len(r[1]) == 1 and r[1][0][0] == "i" and int(r[1][0][1]) == int(want)
+        out.append((key, not ok, f"{e!r} at {env}: evaluator {want}, C program "
+                                 f"`{'; '.join(n + ' = ' + t for n, t in m.cse_name_list)}; {text}` gives {r[:2]!r}"[:400]))
+    return out
+
+
 PROP = Prop(
     id="C14",
     title="Generated C code computes what the evaluator computes",
-    lean_targets=["PV.Properties.C14", "PV.Properties.C14Table"],
+    lean_targets=["PV.Properties.C14", "PV.Properties.C14Table", "PV.Properties.C14Prog"],
     extractors=[extract],
-    streams=[CStream(), TableStream()],
-    probes=[probe],
+    streams=[CStream(), TableStream(), ProgStream()],
+    probes=[probe, probe_program],
     trusted_base=["Lean 4.33 kernel; axioms propext, Classical.choice, Quot.sound only",
                   "gcc and the machine's floating point (runtime part: values are compared per run)",
                   "the C reading `denC` of the printed structure is tied to gcc by correspondence",
@@ -1421,7 +1899,13 @@ PROP = Prop(
                "earlier (false after copy(): witnesses); on the C-expressible integer fragment "
                "(arithmetic, comparisons, ?:, &&, ||, !, bitwise operators, shifts, two-operand "
                "min/max) without the mis-parenthesised shapes, C's grammar groups the emitted text "
-               "as the tree and the C value equals the evaluator's (True/False as 1/0). Text, "
+               "as the tree and the C value equals the evaluator's (True/False as 1/0); with "
+               "CommonSubexpression wrappers anywhere (cFragCse) the PROGRAM — the hoisted "
+               "assignments executed in order, then the expression — computes the evaluator's value, "
+               "for every expression of every history of calls on one mapper under the whole "
+               "accumulated assignment list (program_value_partial, history_value_partial; "
+               "hypotheses: every hoisted subexpression has a value, the environment declares no "
+               "generated name, no copy(): witnesses). Text, "
                "allocator state, the C reading (vs gcc) and the reference meaning (vs the real "
                "evaluator) are tied by correspondence; floating point and gcc itself are runtime "
                "checks. The hand-written model is proved equal (ccodeE_eq_table_current, "
